@@ -434,6 +434,12 @@ pub fn reference_hash(
     object: &CanonicalJsonObject,
     rules: &RoomVersionRules,
 ) -> Result<String, Error> {
+    // The size limit applies to the event, not only to what is left of it after the redaction.
+    let json = canonical_json_with_fields_to_remove(object, CONTENT_HASH_FIELDS_TO_REMOVE)?;
+    if json.len() > MAX_PDU_BYTES {
+        return Err(Error::PduSize);
+    }
+
     let redacted_value = redact(object.clone(), &rules.redaction, None)?;
 
     let json =
